@@ -28,8 +28,8 @@ ASSUMPTIONS = [
 RULE = ('every implementation run is judged twice - by the Coq model (correspondence) and by the statement-level oracle (search): `evaluations` counts both judgements, `distinct_nontrivial` counts each distinct run once. ' 'real os.fork() scenarios: parent history (11 fork points: never connected, pooled after read / write / rollback, disconnected, session begun without '
         'statement, session begun with pooled connection, live read-only session, live session after an earlier commit, nested live session, open write '
         'transaction) x child programs (new sessions with reads and writes, continuing the inherited session, rollback, a first connect attempt that fails '
-        '- injected at the DB-API connect - followed by a retry) x parent continuation; '
-        'non-trivial = the child touched a connection or the pool parked one; distinct = distinct (before, child, after)')
+        '- injected at the DB-API connect - followed by a retry) x parent continuation, on real Pony sessions over SQLite; the same kind of histories (plus dropped connections and child disconnect()) at pool level on PGPool and the base Pool '
+        'with a recording stub driver (quick: 26 + 8 + 8 scenarios, thorough: 153 + 39 + 39); non-trivial = the child touched a connection or the pool parked one; distinct = distinct (before, child, after)')
 
 OPMAP = {'begin': 'OBegin', 'query': 'OQuery', 'query_fail': 'OQueryFail', 'fail': 'OFail', 'write': 'OQuery', 'end_commit': 'OEnd', 'end_rollback': 'OEnd', 'disconnect': 'ODisconnect'}
 
